@@ -34,7 +34,8 @@ VARIABLES motion,   \* sequence of <<kind, id>> motions applied so far
           shift,    \* id of the residue-number shift (0 = none)
           icodes,   \* 0 = numbering as deposited, k = k-th order-preserving renumbering WITH insertion codes
           fmt,      \* "obj" | "pdb" | "cif"
-          records,  \* 0 = atoms only, 1 = a text also carries the records describing the polymer
+          records,  \* 0 = atoms only, 1 = a text also carries the records describing the polymer (entity tables and
+                    \* modification records), 2 = the modification records alone (a fragment cut from a bigger file)
           lastop,   \* the step just taken, for replay
           steps
 vars == <<motion, atomOrder, chains, shift, icodes, fmt, records, lastop, steps>>
@@ -66,7 +67,7 @@ SwitchFormat(f) == /\ f # fmt /\ (f = "obj" \/ Exact(motion))
                    /\ fmt' = f /\ Step(<<"SwitchFormat", IF f = "obj" THEN 0 ELSE IF f = "pdb" THEN 1 ELSE 2>>)
                    /\ UNCHANGED <<motion, atomOrder, chains, shift, icodes, records>>
 \* the describing records come and go (they matter only while the format is a text)
-ToggleRecords   == /\ records' = 1 - records /\ Step(<<"ToggleRecords", 1 - records>>)
+ToggleRecords   == /\ records' = (records + 1) % 3 /\ Step(<<"ToggleRecords", (records + 1) % 3>>)
                    /\ UNCHANGED <<motion, atomOrder, chains, shift, icodes, fmt>>
 
 Next == \/ \E k \in 1..NRot : Rotate(k)
@@ -82,7 +83,7 @@ Spec == Init /\ [][Next]_vars
 
 \* every reachable presentation is deliverable: a text format never has to carry a random rotation
 Deliverable == fmt \in {"pdb", "cif"} => Exact(motion)
-TypeOK == /\ fmt \in Formats /\ records \in {0, 1} /\ atomOrder \in 0..NPerm /\ chains \in {0, 1} /\ shift \in 0..NShift /\ icodes \in 0..NIcode /\ steps <= MaxSteps
+TypeOK == /\ fmt \in Formats /\ records \in 0..2 /\ atomOrder \in 0..NPerm /\ chains \in {0, 1} /\ shift \in 0..NShift /\ icodes \in 0..NIcode /\ steps <= MaxSteps
 
 \* which sentence of the property a step exercises
 ClauseOf(opname) ==
